@@ -9,6 +9,7 @@
 #include <etl/_chrono/weekday.hpp>
 #include <etl/_chrono/weekday_indexed.hpp>
 #include <etl/_chrono/year.hpp>
+#include <etl/_chrono/year_month_day.hpp>
 
 namespace etl::chrono {
 
@@ -94,6 +95,60 @@ private:
 [[nodiscard]] constexpr auto operator-(year_month_weekday const& lhs, years const& rhs) noexcept -> year_month_weekday
 {
     return lhs + -rhs;
+}
+
+constexpr year_month_weekday::year_month_weekday(sys_days const& dp) noexcept
+    : _y{}
+    , _m{}
+    , _wdi{}
+{
+    auto const ymd = chrono::year_month_day{dp};
+    auto const wd  = chrono::weekday{dp};
+
+    _y   = ymd.year();
+    _m   = ymd.month();
+    _wdi = wd[(static_cast<unsigned>(ymd.day()) - 1U) / 7U + 1U];
+}
+
+constexpr year_month_weekday::year_month_weekday(local_days const& dp) noexcept
+    : year_month_weekday{sys_days{dp.time_since_epoch()}}
+{
+}
+
+constexpr year_month_weekday::operator sys_days() const noexcept
+{
+    auto const first = static_cast<sys_days>(_y / _m / 1);
+    auto const delta = (weekday() - chrono::weekday{first}).count() + (static_cast<int_least32_t>(index()) - 1) * 7;
+    return sys_days{days{first.time_since_epoch().count() + delta}};
+}
+
+constexpr year_month_weekday::operator local_days() const noexcept
+{
+    return local_days{static_cast<sys_days>(*this).time_since_epoch()};
+}
+
+constexpr auto year_month_weekday::operator+=(months const& m) noexcept -> year_month_weekday&
+{
+    *this = *this + m;
+    return *this;
+}
+
+constexpr auto year_month_weekday::operator-=(months const& m) noexcept -> year_month_weekday&
+{
+    *this = *this - m;
+    return *this;
+}
+
+constexpr auto year_month_weekday::operator+=(years const& y) noexcept -> year_month_weekday&
+{
+    *this = *this + y;
+    return *this;
+}
+
+constexpr auto year_month_weekday::operator-=(years const& y) noexcept -> year_month_weekday&
+{
+    *this = *this - y;
+    return *this;
 }
 
 } // namespace etl::chrono
